@@ -203,6 +203,8 @@ func checkC20(p *core.Program, r *core.Report) {
 	r.Rule("R5", "every action struct field whose value reaches Run.EvaluateTemplate* carries engine:\"evaluated\" (else template-borne dependencies are invisible to inspection)")
 	r.Rule("R9", "the exits a resumed session can leave a wait by are exits of the waiting node: a category's exit is validated against the node's exits at load (imported from C01/R10), which is what makes `every exit of every waiting node` the complete list")
 	importObligations(p, r, "C01", map[string]bool{"R10": true}, "R9", "a wait can be left by an exit that inspection does not list")
+	r.Rule("R11", "a session is only resumed at a node that waits: tryToResume ends the session as failed when the node has no router or the router no wait (imported from C10/R3) — otherwise the resumed run leaves by the exits of a node whose exits inspection does not list as waiting exits")
+	importObligations(p, r, "C10", map[string]bool{"R3": true}, "R11", "a session can be resumed at a node without a wait")
 	r.Rule("R10", "what validation admits, inspection recognises: the spelling of a case's test type that SwitchRouter.Validate accepts is not laxer than the one Case.Dependencies / inspection compares — if any consumer of Case.Type compares it exactly, Validate looks it up exactly too (a type admitted only after lower-casing runs as has_group but its group is not listed as a dependency)")
 	c20R10(p, r)
 	r.Rule("R8", "the extraction chain drops nothing: from the tagged fields to the recorded references — templateValues' field callback, Translations, extractTemplates, the callbacks of flow.extract and its recordAssetRef — every hand-over (a call of the include callback, of the next stage, or the append that records) is decided only by loop bounds, type-switch arms, nil tests, the EngineField flags and Reference.Variable(); no hand-over is followed by leaving the enclosing loop early")
